@@ -216,8 +216,13 @@ def gen_history(rng):
     form = "text"
     if not regions and rng.random() < 0.4:
         form = rng.choice(["string", "dict"])
-    return {"kind": "hist", "W": W, "H": H, "regions": regions, "fixed": fixed, "ops": out, "dieform": form,
+    case = {"kind": "hist", "W": W, "H": H, "regions": regions, "fixed": fixed, "ops": out, "dieform": form,
             "style": gen_style(rng)}
+    if rng.random() < 0.25:
+        # a second Die object alive in the same process, used in between: nothing of it may show in the first
+        case["noise"] = {"W": F(rng.randrange(1, 33)), "H": F(rng.randrange(1, 33)),
+                         "ops": [gen_op(rng, rng.choice(["split", "split", "grid"])) for _ in range(len(out))]}
+    return case
 
 
 def gen_case(rng):
@@ -361,7 +366,23 @@ def run_history(case):
         return {"status": "die-rejected", "why": str(e)[:200]}
     state = snapshot(die)
     obs = {"status": "hist", "start": state, "events": [], "cut": None}
+    other = None
+    if case.get("noise"):
+        from frame.die.die import Die
+        try:
+            other = Die(f"{fnum(case['noise']['W'])}x{fnum(case['noise']['H'])}")
+        except Exception:
+            other = None
     for i, op in enumerate(case["ops"]):
+        if other is not None and i < len(case["noise"]["ops"]):
+            nop = case["noise"]["ops"][i]
+            try:
+                if nop[0] == "split":
+                    other.split_refinable_regions(rarg(nop[1]), nop[2])
+                elif nop[0] == "grid":
+                    other.initial_grid(nop[1], nop[2])
+            except Exception:
+                pass
         ev = {"op": op, "before": state}
         if op[0] == "split":
             if float_boundary(state["spec"] + state["ground"], op[1]):
@@ -717,6 +738,8 @@ def shrink(case):
                 yield dict(case, **{key: F(case[key] // 2)})
         if case.get("dieform") != "text":
             yield dict(case, dieform="text")
+        if case.get("noise"):
+            yield dict(case, noise=None)
         return
     if case["kind"] in ("split", "raw"):
         n = case["n"]
